@@ -715,9 +715,9 @@ impl Session {
                     "Unknown alert".to_string()
                 };
                 tracing::error!("[Session] Received Alert frame (fatal): {}", alert_msg);
-                // Close all streams
-                let mut streams = self.streams.write().await;
-                for (stream_id, stream) in streams.drain() {
+                // Record the alert as the reason on every stream ...
+                let streams = self.streams.read().await;
+                for (stream_id, stream) in streams.iter() {
                     let error = AnyTlsError::Protocol(format!(
                         "Session closed due to alert: {}",
                         alert_msg
@@ -726,9 +726,10 @@ impl Session {
                     tracing::debug!("[Session] Closed stream {} due to alert", stream_id);
                 }
                 drop(streams);
-                // Mark session as closed
-                self.is_closed
-                    .store(true, std::sync::atomic::Ordering::Relaxed);
+                // ... and tear the session down the same way every other fatal condition
+                // does: close() releases blocked readers and pending opens, wakes the
+                // forwarding task and shuts the transport down.
+                let _ = self.close().await;
                 return Err(AnyTlsError::Protocol(format!("Alert: {}", alert_msg)));
             }
             Command::HeartRequest => {
